@@ -533,6 +533,8 @@ def main(tier):
     cu = ir.run_units([dict(name='controls', src=os.path.join(ir.VERIF, 'tus', 'controls.cpp'))], 'C09c')
     # thread-private scratch objects (one QR per thread, reused for every aggregate of its chunk) are re-initialised per use (shared with C15)
     c15.rule_F(ck, units, cu['controls'])
+    import coverage
+    coverage.rule_cover(ck, units, control=cu['controls'])      # a member that is only resize()d is rebuilt without a gap (QR workspace; shared by C09 / C15 / C16)
     ck.assumptions += ['index arrays selected by an owned index (row pointers, permutations, per-row maps) are injective row maps',
                        'the run-time team size equals omp_get_max_threads() at construction of the level schedules',
                        'bitwise identity of results and summation-order effects of reductions are not decided']
